@@ -43,7 +43,7 @@ type c19gParams struct {
 var c19gRepo = c19gParams{sqlRel: "sql", exprRel: "sql/expression", setField: "NewSetField", planRel: "sql/plan",
 	ueType: "UpdateExprs", ueCtor: "NewUpdateExprs", ocIface: "EditOpenerCloser",
 	buildPkgs: []string{"sql/planbuilder"}, execPkgs: []string{"sql/rowexec"},
-	floors: map[string]int{"C19-G1": 5, "C19-G2": 6, "C19-G3": 9, "C19-G4": 4}}
+	floors: map[string]int{"C19-G1": 5, "C19-G2": 6, "C19-G3": 11, "C19-G4": 4}}
 
 // c19gFixture: the G clauses must fire on the broken builders / construction sites / appliers of
 // testdata/c19/{build,plan,gexec} and stay silent on the correct ones next to them.
@@ -65,6 +65,7 @@ func c19gFixture(c *Ctx, fx *Prog) {
 		"C19-G2:UpdateExprs.Tail/partition",
 		"C19-G2:UpdateExprs/split-index-written@UpdateExprs.Reset",
 		"C19-G3:applyStale/derived-loop",
+		"C19-G3:upserter.applyLenient/loop/repair-from-accumulator",
 		"C19-G3:upserter.upsertRestart/derived-after-explicit",
 		"C19-G3:upserter.upsertBad/result-is-last-application",
 		"C19-G4:upserter.upsertBad/change-test-operands",
